@@ -9,7 +9,8 @@ oracle runs (extracted OCaml model vs the real library)  ->  verdict + evidence.
 import os, sys, json, time, subprocess, tempfile, shutil, re, hashlib, random, fcntl, glob
 
 VERIF = os.path.dirname(os.path.abspath(__file__))
-REPO = os.environ.get('CELLO_REPO', '/repo')
+_rf = os.path.join(VERIF, '.cello_repo')      # scratch worktrees point at their own repo copy
+REPO = os.environ.get('CELLO_REPO') or (open(_rf).read().strip() if os.path.exists(_rf) else '/repo')
 COQ = os.path.join(VERIF, 'coq')
 GUARD = 'CELLO_VERIF'
 NCPU = os.cpu_count() or 4
